@@ -193,7 +193,11 @@ static void roundtrip_run(const Case &c, Result &r, const char *type) {
       int s1 = 0, s2 = 0;
       Q v1, v2;
       bool o1 = solve_value(p, s1, v1), o2 = solve_value(q, s2, v2);
-      if (o1 && o2 && (s1 != s2 || (s1 == QS_LP_OPTIMAL && v1 != v2)))
+      // "the same status": the definitive classification of the LP; a non-definitive answer (UNSOLVED, a limit)
+      // on either side is a completeness matter for ill-scaled data (C03), not a difference between the problems
+      auto definitive = [](int st) { return st == QS_LP_OPTIMAL || st == QS_LP_INFEASIBLE || st == QS_LP_UNBOUNDED; };
+      if (o1 && o2 && (!definitive(s1) || !definitive(s2))) r.label("followup:solve-nondefinitive");
+      else if (o1 && o2 && (s1 != s2 || (s1 == QS_LP_OPTIMAL && v1 != v2)))
         r.fail(std::string("roundtrip-solve-differs:") + type, strprintf("original status %d value %s, re-read status %d value %s", s1, qstr(v1).c_str(), s2, qstr(v2).c_str()));
       r.label("followup:solve");
     } else if (follow == 3) {   // the other format from the re-read problem, and back (chains LP->MPS->LP, MPS->LP->MPS)
